@@ -202,16 +202,24 @@ class C09(F.PropCheck):
 
     # ---------------- monitor: the property text evaluated on the implementation trace (no Coq model involved)
     def monitor(self, case, status, outs):
-        if status != 'ok': return []        # no memory-safety clause in C09; crashes surface as disagreements
+        if status != 'ok':
+            # the sanitizers stopped the real code (undefined behaviour such as an out-of-range double -> integer conversion, or a
+            # memory error): no position/tilt bookkeeping is defined for this input
+            return ['implementation crashed (%s): undefined behaviour or memory error inside the accounting code' % status]
         v = []
         cfg = None; idl = None; d = 0
         sts = [o for o in outs if o[0] == 'ST']; si = 0
+        reps = []; cur = []          # reps[i] = values reported inside callback i
+        for o in outs:
+            if o[0] == 'REPORT': cur.append(o[2])
+            elif o[0] == 'ST': reps.append(cur); cur = []
+        rep_pos = None; stale_us = 0; maxdt_seen = 0     # last position value handed to the server; how long it has differed from the stored one
         for o in outs:
             if o[0] == 'REPORT' and len(o[2]) >= 2:
                 rp_ = o[2][0] - 256 if o[2][0] > 127 else o[2][0]; rt_ = o[2][1] - 256 if o[2][1] > 127 else o[2][1]
                 if not (rp_ == -1 or 0 <= rp_ <= 100): v.append('value handed to the server has position %d (not -1 or 0..100)' % rp_)
                 if not (rt_ == -1 or 0 <= rt_ <= 100): v.append('value handed to the server has tilt %d (not -1 or 0..100)' % rt_)
-        pos = tilt = None; wf = True; in_scope = False; blocked = False; last_carry = (0, 0)
+        pos = tilt = None; wf = True; in_scope = False; blocked = False; last_carry = (0, 0); synced = False
         seg = None   # [dir, p0raw, t0raw, elapsed_us, max interval, min interval]
         def state_ok(p, t):
             if not ((p == 0 or known(p)) and (t in (0, -1) or known(t))): return False
@@ -221,7 +229,9 @@ class C09(F.PropCheck):
             return True
         for (k, a, _) in case.evs:
             if k == 'CFG':
-                cfg = a; idl = Ideal(a); pos = a[6]; tilt = a[7] if idl.supported() else -1; d = 0; seg = None; blocked = False
+                rep_pos = None; stale_us = 0
+                cfg = a; idl = Ideal(a); pos = a[6]; tilt = a[7] if idl.supported() else -1; d = 0; seg = None
+                blocked = False; synced = False     # synced: a callback has run (last_time is not initialised before)
                 wf = state_ok(pos, tilt)
                 # the quantifier of the property: times 0.5 s .. 10 min; tilting shorter than the travel for the modes that tilt in place;
                 # a roller shutter has no tilting time
@@ -231,8 +241,10 @@ class C09(F.PropCheck):
             elif k == 'SET':
                 # a run that starts with the carry of an earlier run in the same direction still stored (outputs switched off and on
                 # again between two callbacks, impossible through set_relay because of the 1 s start delay) is not "t ms from a known position"
-                stale = (a[0] == 2 and last_carry[0] != 0 and d != 2) or (a[0] == 1 and last_carry[1] != 0 and d != 1)
-                d = a[0]; seg = None; blocked = stale
+                if a[0] != d:
+                    if a[0] == 2: blocked = (last_carry[0] != 0)
+                    elif a[0] == 1: blocked = (last_carry[1] != 0)
+                d = a[0]; seg = None
             elif k == 'POKE':
                 pos, tilt = a[0], a[1]; seg = None; blocked = True    # the carry of the running motor is not a run "from a known position"
                 if not state_ok(pos, tilt): wf = False
@@ -255,7 +267,7 @@ class C09(F.PropCheck):
                         if d == 2 and ntilt > tilt: v.append('%s: tilt rose %d -> %d while moving up [mode=%d]' % (where, tilt, ntilt, cfg[4]))
                         if d == 1 and ntilt < tilt: v.append('%s: tilt fell %d -> %d while moving down [mode=%d]' % (where, tilt, ntilt, cfg[4]))
                 # --- accounting
-                if wf and in_scope and not blocked and d in (1, 2) and known(pos):
+                if wf and in_scope and synced and not blocked and d in (1, 2) and known(pos):
                     if seg is None or seg[0] != d:
                         t0 = (tilt - 100) if (idl.supported() and known(tilt)) else 0
                         seg = [d, pos - 100, t0, 0, 0, 10**9]
@@ -280,7 +292,20 @@ class C09(F.PropCheck):
                     if not known(npos): seg = None
                 else:
                     seg = None
+                # --- the reported value follows the stored one within the 200 ms reporting period (+ one callback interval)
+                maxdt_seen = max(maxdt_seen, a[0])
+                for rb in reps[si - 1]:
+                    rep_pos = rb[0] - 256 if rb[0] > 127 else rb[0]
+                if rep_pos is not None:
+                    if rep_pos != rpos:
+                        stale_us += a[0] if stale_us or True else 0
+                        if stale_us > 200000 + 2 * maxdt_seen + a[0]:
+                            v.append('%s: the position handed to the server (%d) has differed from the stored one (%d) for %d us (reporting period 200 ms)' % (where, rep_pos, rpos, stale_us))
+                            stale_us = -10**12
+                    else: stale_us = 0
                 pos, tilt = npos, ntilt; last_carry = (ut, dtm)
+                if d == 0: blocked = False     # a callback with both outputs off clears the carries
+                if not synced: synced = True; blocked = blocked or d != 0
                 if nd != d: d = nd; seg = None
                 if len(v) >= 3: break
         return v[:3]
